@@ -1,6 +1,8 @@
 package main
 
 import (
+	"errors"
+	"github.com/polydawn/rio/lib/verifhook"
 	"time"
 	"github.com/polydawn/refmt/misc"
 	"context"
@@ -322,11 +324,76 @@ func packenvBigDir(c *Ctx, op string) {
 
 func init() { engines["bigdir"] = func(c *Ctx) { packenvBigDir(c, "packenv-bigdir 5000") } }
 
+
+// packenvFailThen: a pack that fails partway (the warehouse refuses the i-th write) followed, in the same process and on
+// the same goroutine, by a quiet pack of the same tree: the id must be what it was before the failure.
+// Recipe: "packenv-failthen <tar|zip> <i>".
+func packenvFailThen(c *Ctx, op string) {
+	f := strings.Fields(op)
+	fmtName := f[1]
+	at := 0
+	fmt.Sscan(f[2], &at)
+	caseCounter++
+	base := filepath.Join(c.Work, fmt.Sprintf("pft%d", caseCounter))
+	defer rmrf(base)
+	src, wh := filepath.Join(base, "src"), filepath.Join(base, "wh")
+	os.MkdirAll(filepath.Join(src, "d"), 0755)
+	os.MkdirAll(wh, 0755)
+	os.Setenv("RIO_CACHE", filepath.Join(base, "cache"))
+	x := uint32(7)
+	for i, n := range []int{100000, 70000, 3, 250000} { // incompressible bodies: every copy chunk reaches the warehouse
+		b := make([]byte, n)
+		for j := range b {
+			x = x*1664525 + 1013904223
+			b[j] = byte(x >> 24)
+		}
+		os.WriteFile(filepath.Join(src, []string{"a", "d/b", "d/c", "e"}[i]), b, 0644)
+	}
+	ctx := context.Background()
+	pf := api.MustParseFilesetPackFilter(losslessPackStr)
+	fn := funcsFor(fmtName)
+	pack := func() string {
+		id, err, pan := safeCall(func() (api.WareID, error) {
+			return fn.pack(ctx, api.PackType(fmtName), src, pf, whAddr("ca", wh), rio.Monitor{})
+		})
+		return resTok(id, err, pan)
+	}
+	before := pack()
+	c.EmitR(op, "skip", "skip")
+	if !strings.HasPrefix(before, "ok ") {
+		c.H("failthen-skipped:" + before)
+		return
+	}
+	for rep := 0; rep < 3; rep++ {
+		n := 0
+		verifhook.Set(func(name string, detail []string) error {
+			if name == "kvfs.write" {
+				n++
+				if n == at+1+rep {
+					return errors.New("injected fault: no space left on device")
+				}
+			}
+			return nil
+		})
+		failed := pack()
+		verifhook.Set(nil)
+		after := pack()
+		c.H("failthen:" + fmtName + ":" + strings.Fields(failed)[0])
+		if after != before {
+			c.PropFail("pack-env", fmt.Sprintf("the same tree packed to %s, then a pack failed (%s, write %d refused), then the same tree packed to %s", before, failed, at+1+rep, after), op)
+			return
+		}
+	}
+	c.Distinct(op)
+}
+
 func packenvEngine(c *Ctx) {
 	if ls := replayLines(); ls != nil {
 		for _, op := range ls {
 			if strings.HasPrefix(op, "packenv-bigdir ") {
 				packenvBigDir(c, op)
+			} else if strings.HasPrefix(op, "packenv-failthen ") {
+				packenvFailThen(c, op)
 			} else if strings.HasPrefix(op, "packenv ") && !strings.Contains(op, " #") {
 				packenvExec(c, op)
 			}
@@ -336,6 +403,11 @@ func packenvEngine(c *Ctx) {
 	packenvBigDir(c, "packenv-bigdir 5000")
 	if c.Tier == "thorough" {
 		packenvBigDir(c, "packenv-bigdir 70000")
+	}
+	for _, fm := range []string{"tar", "zip"} {
+		for _, at := range []int{0, 2, 5, 9} {
+			packenvFailThen(c, fmt.Sprintf("packenv-failthen %s %d", fm, at))
+		}
 	}
 	rounds, nSets := 3, 6
 	if c.Tier == "thorough" {
